@@ -165,11 +165,19 @@ _TIER = None
 _SEED = None
 
 
+_HIST = []          # the units this worker process has executed so far (a forked worker starts with the parent's: none)
+
+
 def _worker(unit):
     try:
+        _HIST.append(unit)
         d = _CHECK.run_unit(unit, _TIER, _SEED).export()
+        seen = set()
         for v in d['violations']:
             v['unit'] = unit
+            if v['sig'] not in seen:          # what this process ran before, for violations that depend on it
+                seen.add(v['sig'])
+                v['hist'] = list(_HIST)
         return d
     except Exception:
         R = Result()
@@ -210,7 +218,11 @@ def write_replay(pid, sig, n, viol, seed, tier):
                  f'    chk = core.load_check({pid!r})\n'
                  '    R = core.Result()\n'
                  '    chk.setup(rep["tier"], rep["seed"])\n'
-                 '    if isinstance(rep["case"], dict) and "unit_replay" in rep["case"]:\n'
+                 '    if isinstance(rep["case"], dict) and "units_replay" in rep["case"]:\n'
+                 '        chk.units(rep["tier"], rep["seed"])\n'
+                 '        for u in rep["case"]["units_replay"]:\n'
+                 '            R.merge(chk.run_unit(u, rep["tier"], rep["seed"]).export())\n'
+                 '    elif isinstance(rep["case"], dict) and "unit_replay" in rep["case"]:\n'
                  '        chk.units(rep["tier"], rep["seed"])\n'
                  '        R = chk.run_unit(rep["case"]["unit_replay"], rep["tier"], rep["seed"])\n'
                  '    else:\n'
@@ -250,6 +262,26 @@ def unit_in_fresh_process(pid, tier, seed, unit):
     return set()
 
 
+def units_in_fresh_process(pid, tier, seed, units):
+    """Signatures violated when the given SEQUENCE of units is executed, in order, by one fresh interpreter."""
+    code = ('import json,sys\n'
+            'from mcx import core\n'
+            'core.bind_repo()\n'
+            'chk = core.load_check(sys.argv[1]); tier, seed = sys.argv[2], int(sys.argv[3])\n'
+            'chk.setup(tier, seed); chk.units(tier, seed)\n'
+            'sigs = set()\n'
+            'for u in json.load(sys.stdin):\n'
+            '    sigs |= set(chk.run_unit(u, tier, seed).viol_count)\n'
+            'print("UNIT-SIGS " + json.dumps(sorted(sigs)))\n')
+    env = dict(os.environ, PYTHONPATH=VERIF + os.pathsep + os.environ.get('PYTHONPATH', ''))
+    p = subprocess.run([sys.executable, '-W', 'ignore', '-c', code, pid, tier, str(seed)], input=json.dumps(units),
+                       capture_output=True, text=True, env=env, cwd=VERIF)
+    for ln in p.stdout.splitlines():
+        if ln.startswith('UNIT-SIGS '):
+            return set(json.loads(ln[10:]))
+    return set()
+
+
 def run(pid, tier, seed, jobs=None, replay=None, quiet=False):
     global _CHECK, _TIER, _SEED
     t0 = time.time()
@@ -260,7 +292,12 @@ def run(pid, tier, seed, jobs=None, replay=None, quiet=False):
             rep = json.load(fh)
         chk.setup(rep.get('tier', tier), rep.get('seed', seed))
         R = Result()
-        if isinstance(rep['case'], dict) and 'unit_replay' in rep['case']:
+        if isinstance(rep['case'], dict) and 'units_replay' in rep['case']:
+            # the artefact is a sequence of units (what one worker process executed, in order)
+            chk.units(rep.get('tier', tier), rep.get('seed', seed))
+            for u in rep['case']['units_replay']:
+                R.merge(chk.run_unit(u, rep.get('tier', tier), rep.get('seed', seed)).export())
+        elif isinstance(rep['case'], dict) and 'unit_replay' in rep['case']:
             # the artefact is a whole unit (a fixed sequence of cases run by one fresh process)
             chk.units(rep.get('tier', tier), rep.get('seed', seed))
             R = chk.run_unit(rep['case']['unit_replay'], rep.get('tier', tier), rep.get('seed', seed))
@@ -324,6 +361,15 @@ def run(pid, tier, seed, jobs=None, replay=None, quiet=False):
                 if 'unit' in cand and sig in unit_in_fresh_process(pid, tier, seed, cand['unit']):
                     reproduced = True
                     v = dict(cand, case={'unit_replay': cand['unit'], 'first_failing_case': cand['case']})
+                    break
+        if not reproduced and not sig.startswith('harness/'):
+            # ... or what the worker process executed in EARLIER units (state keyed by names, sizes, paths, object
+            # identities): re-run the worker's whole sequence of units, in order, from a fresh interpreter - twice
+            for cand in [c for c in by_sig[sig] if 'hist' in c][:2]:
+                if sig in units_in_fresh_process(pid, tier, seed, cand['hist']) and \
+                        sig in units_in_fresh_process(pid, tier, seed, cand['hist']):
+                    reproduced = True
+                    v = dict(cand, case={'units_replay': cand['hist'], 'first_failing_case': cand['case']})
                     break
         if not reproduced:
             path = write_replay(pid, sig, 0, v, seed, tier)
